@@ -4,7 +4,7 @@ C14 -- Format inference bounds every run-time value.
 Part P (programs).  Space: every program of the bounded grammars of
 mc.engine.progen_c14 (A arithmetic chains, B comparison / logb refinements,
 L loops with static and symbolic trip counts, H helper calls, M literal sets,
-lists, selections) x a list of (caller context, argument formats)
+lists, selections, R early scalar returns followed by a length constraint) x a list of (caller context, argument formats)
 instantiations drawn from a small pool (contexts: IEEE(2,4) RNE, IEEE(3,6) RTP, an
 unbounded 2-digit MPFloat, a float format whose NaN replaces -0, signed / unsigned
 two's complement fixed point with saturation, INTEGER, REAL; argument formats: the
@@ -15,6 +15,15 @@ Each instantiation is analysed by the real `FormatInfer.analyze(ast, fn_fmt=...)
 (and, for the first instantiation of every program, through
 `strategies.monomorphize` + `FormatInfer.analyze(ast)` as the back ends do);
 each execution is traced with mc.engine.tracer.
+
+Family R (108 programs): `f(xs, c: bool)` = {s = sum(xs) | for-loop accumulator over xs | counter over
+range(len(xs))} under {REAL, caller context, INTEGER}, returned early by `if c: return s` (as is, inside a tuple,
+or computed inside the arm), followed at top level by {`assert len(xs) == K` | a strict zip of xs with a K-element
+literal}, K in {1, 2}, and a normal return.  Inputs: c in {True, False} x the usual lists (lengths 0..3) plus lists
+of length 3..5 at the extremes of the element format, i.e. len(xs) in {K, K+1, larger}; runs with c False and
+len(xs) != K raise and are not judged.  The constraint holds only on executions that did not return early, so the
+bound of `s` / of the result must cover every length on the early-return path.  Cells: (REAL, fx), (CB, fx),
+(REAL, fu), (REAL, int); thorough adds five more.
 
 Oracle P1 (membership): the value of every traced expression, every definition
 (`by_def`, phi nodes through the reads that resolve to them), the function
@@ -78,7 +87,7 @@ from fpy2.analysis.format_infer.analysis import NegZero, Special
 from fpy2.number import Context, Float, RealFloat
 from fpy2.number.context.format import Format
 from fpy2.number.format import REAL_FORMAT
-from fpy2.types import ListType, RealType
+from fpy2.types import BoolType, ListType, RealType
 
 INF = float('inf')
 Q = Fraction
@@ -238,6 +247,7 @@ class Pool:
         self.members['int'] = [str(i) for i in (0, 1, -1, 2, -2, 3, -3, 11)]
         self.members['real'] = ['+0', '-0', '1', '-3/2', '5/4', '1/3', '11', '-1/1024', '+inf', '-inf', 'NaN']
         self.members['n'] = ['0', '1', '2', '3']
+        self.members['bool'] = ['True', 'False']
 
     def core(self, k: str) -> list[str]:
         """representatives used for list arguments of length two and three"""
@@ -266,22 +276,35 @@ class Pool:
         out += [[co[0], co[-1], co[len(co) // 2]], [co[-1], co[-1], co[-1]]]
         return out
 
+    def long_lists(self, k: str):
+        """family R: lists() (lengths 0..3) plus lengths 3..5 at the extremes of the element format"""
+        ms = self.members[k]
+        fin = sorted(Fraction(t) for t in ms if t[0] not in '+N' and t not in ('-0', '-inf'))
+        lo, hi = str(fin[0]), str(fin[-1])
+        out = self.lists(k)
+        out += [[hi] * 3, [hi] * 4, [lo] * 4, [hi] * 5, [lo] * 5, [hi, lo, hi, hi]]
+        return out
+
     def inputs(self, prog, argf: dict):
         axes = []
         for a in prog.args:
             if a == 'n':
                 axes.append(self.members['n'])
             elif a == 'xs':
-                axes.append(self.lists(argf[a]))
+                axes.append(self.long_lists(argf[a]) if prog.fam == 'R' else self.lists(argf[a]))
             else:
                 axes.append(self.members[argf[a]])
         return itertools.product(*axes)
 
     def bound(self, arg: str, fname: str):
+        if fname == 'bool':
+            return None
         f = self.fmt[fname]
         return ListFormat(f) if arg == 'xs' else f
 
     def type_of(self, arg: str, fname: str):
+        if fname == 'bool':
+            return BoolType()
         t = RealType(self.argctx[fname])
         return ListType(t) if arg == 'xs' else t
 
@@ -300,6 +323,8 @@ def dec_value(t):
     """text -> run-time argument (Float for dyadic values and specials, Fraction otherwise)"""
     if isinstance(t, list):
         return [dec_value(x) for x in t]
+    if t == 'True' or t == 'False':
+        return t == 'True'
     if t == '+0':
         return Float(s=False, exp=0, c=0)
     if t == '-0':
